@@ -6,6 +6,7 @@ import SodiumModel.Spec.Poly1305
 import SodiumModel.Spec.Gcm
 import SodiumModel.Spec.Aegis
 import SodiumModel.Spec.Curve25519
+import SodiumModel.Model.Scalarmult
 namespace Sodium.Driver.C01
 open Sodium Sodium.Model Sodium.Model.Aead Sodium.Driver Sodium.Spec
 
@@ -101,9 +102,10 @@ def handle (op : String) (args : List String) : Option String :=
   | "secretbox.nacl.open", [c, n, k] => do some (naclLine (naclOpen pSalsa (← ofHex c) (← ofHex n) (← ofHex k)))
   | "box.beforenm", [v, pk, sk] => do
     let pk ← ofHex pk; let sk ← ofHex sk
-    match X25519.scalarmult sk pk with
-    | none => some "-1"
-    | some q => some s!"0 {toHex (if v == "xsalsa" then Salsa.hsalsa20 (zeros 16) q none else Chacha.hchacha20 (zeros 16) q none)}"
+    -- model of crypto_box_…_beforenm over ref10's `mult` with the RFC 7748 ladder
+    match Scalarmult.crypto_box_beforenm (Scalarmult.mult_ref10 X25519.x25519)
+        (if v == "xsalsa" then fun i k => Salsa.hsalsa20 i k none else fun i k => Chacha.hchacha20 i k none) pk sk with
+    | (rc, k) => some (if rc != 0 then i32s rc else s!"0 {toHex (k.getD [])}")
   | _, _ => none
 
 end Sodium.Driver.C01
